@@ -174,6 +174,15 @@ def matrix_protos():
         mk(alpha_tag('Mo', j), [f, num('Post', 'u16')])
     j += 1
     mk(alpha_tag('Mo', j), [Field('ref', 'Empty', packet='Empty', named=False), num('Post', 'u16')], subs=[('Empty', [])])
+    # several members of one packet type under different names (plain, plain, repeated), also one level down
+    j += 1
+    mk(alpha_tag('Mo', j), [num('Pre', 'u8'), Field('ref', 'Bid', packet='Level', named=True), Field('ref', 'Ask', packet='Level', named=True),
+                            Field('ref', 'Depth', packet='Level', named=True, repeat=True), num('Post', 'u16')],
+       subs=[('Level', [num('Px', 'i64'), num('Qty', 'u32')])])
+    j += 1
+    mk(alpha_tag('Mo', j), [Field('ref', 'Book', packet='Book', named=True), num('Post', 'u16')],
+       subs=[('Book', [Field('ref', 'Best', packet='Level', named=True), Field('ref', 'Worst', packet='Level', named=True)]), ('Level', [num('Px', 'i64'), dyn('Venue')])],
+       options={'LittleEndian': 'true'})
     # match
     j = 0
     for kt in INT_TYPES:
@@ -209,6 +218,12 @@ def matrix_protos():
                       Field('match', 'BodyA', key='KindA', pairs=[([1], 'Logon'), ([2], 'Logout')]),
                       Field('match', 'BodyB', key='KindB', pairs=[([5], 'Logout'), ([6], 'Logon')])],
        subs=[('Logon', [dyn('User')]), ('Logout', [num('Code', 'u8')])])
+    # two match fields keyed by the SAME field
+    j += 1
+    mk(alpha_tag('Mm', j), [num('Kind', 'u8'),
+                      Field('match', 'Head', key='Kind', pairs=[([1], 'Logon'), ([2], 'Logout')]),
+                      Field('match', 'Body', key='Kind', pairs=[([1], 'Logout'), ([2], 'Beat')]), num('Post', 'u16')],
+       subs=[('Logon', [dyn('User')]), ('Logout', [num('Code', 'u8')]), ('Beat', [num('Seq', 'u32')])])
     # length-of
     j = 0
     for lt in UNS_TYPES:
@@ -230,6 +245,13 @@ def matrix_protos():
     mk(alpha_tag('Ml', j), [num('MsgType', 'u16'), Field('len', 'BodyLen', ntype='u16', target='Body', prefixed=False, typed=False),
                       Field('match', 'Body', key='MsgType', pairs=[([1], 'Logon')])],
        subs=[('Logon', [dyn('User')])], metadata=[('Hdr', [MetaEntry('BodyLen', base=num('BodyLen', 'u16'))])])
+    # length of an inline object
+    for prefixed in (False, True):
+        for le in (None, 'true'):
+            j += 1
+            mk(alpha_tag('Ml', j), [num('MsgType', 'u16'), Field('len', 'BodyLen', ntype='u32' if le else 'u16', target='Body', prefixed=prefixed, typed=True)] + ([num('Seq', 'u32')] if prefixed else []) +
+               [Field('inline', 'Body', fields=[dyn('User'), num('Ival', 'u16'), Field('num', 'Nums', ntype='u32', repeat=True)]), num('Post', 'u16')],
+               options={'LittleEndian': le} if le else None)
     # checksum
     j = 0
     for ct in INT_TYPES:
@@ -286,7 +308,8 @@ def matrix_protos():
     # field-name shapes (packet names stay UpperCamel): lowerCamel, snake_case, ALLCAPS, digit-bearing, acronyms
     j = 0
     for fa, fb, mk_, mn, rn in [('clOrdId', 'orderQty', 'msgType', 'body', 'item'), ('cl_ord_id', 'order_qty', 'msg_type', 'msg_body', 'an_item'),
-                                 ('CLORDID', 'QTY', 'KIND', 'BODY', 'ITEM'), ('Leg1Qty', 'Px2', 'Kind3', 'Body4', 'Item5'), ('ClOrdID', 'HTTPCode', 'MsgKind', 'XMLBody', 'DBItem')]:
+                                 ('CLORDID', 'QTY', 'KIND', 'BODY', 'ITEM'), ('Leg1Qty', 'Px2', 'Kind3', 'Body4', 'Item5'), ('ClOrdID', 'HTTPCode', 'MsgKind', 'XMLBody', 'DBItem'),
+                                 ('ID', 'URL', 'IP', 'HTTP', 'API')]:     # bare acronyms: case converters treat configured acronyms specially
         j += 1
         tag = alpha_tag('Mi', j)
         mk(tag, [num(fa, 'u32'), dyn(fb), num(mk_, 'u8'), Field('match', mn, key=mk_, pairs=[([1], 'Logon'), ([2], 'Logout')]),
